@@ -118,45 +118,59 @@ def check_sweeper_symbolic(tier, seed):
             for fullG in (False, True):
                 if fullG and M == 3:
                     continue
-                L = Level(problem_class=SymDahlquist, problem_params={}, sweeper_class=QDiagonalization,
-                          sweeper_params=dict(num_nodes=M, quad_type='RADAU-RIGHT', ignore_ic=ignore_ic, update_f_evals=False), level_params=dict(dt=1.0), level_index=0)
-                sw = L.sweep
-                S = sp.Matrix(M, M, lambda i, j: sp.Symbol(f's{i}{j}'))
-                w = [sp.Symbol(f'w{i}') for i in range(M)]
-                Gi = sp.Matrix(M, M, lambda i, j: sp.Symbol(f'g{i}{j}') if (fullG or i == j) else 0)
-                Sinv = S.inv()
-                G = Gi.inv()
-                Q = sp.simplify(S * sp.diag(*w) * Sinv * G)  # so that Q*G_inv = S diag(w) S^-1 : what computeDiagonalization assumes/delivers
-                sw.S = np.array(S.tolist(), dtype=object)
-                sw.S_inv = np.array(Sinv.tolist(), dtype=object)
-                sw.w = np.array(w, dtype=object)
-                sw.params.G_inv = np.array(Gi.tolist(), dtype=object)
-                sw.coll.Qmat = np.array([[0] * (M + 1)] + [[0] + list(Q.row(i)) for i in range(M)], dtype=object)
-                L.params.dt = dt
-                L.status.time = sp.Symbol('t0')
-                L.u[0] = u0s
-                r = [sp.Symbol(f'r{m}') for m in range(M)]
-                for m in range(M):
-                    L.residual[m] = r[m]
-                L.status.unlocked = True
-                tag = f'QDiagonalization.update_nodes[M={M},ignore_ic={ignore_ic},G_inv={"full" if fullG else "diagonal"}]'
-                try:
-                    sw.update_nodes()
-                except Exception as e:
-                    obs.append(_ob(f'{tag}:runs', False, dict(error=repr(e)[:200]), backend='sympy'))
-                    continue
-                y = sp.Matrix([L.increment[m] if ignore_ic else L.u[m + 1] for m in range(M)])
-                rhs = sp.Matrix(r) if ignore_ic else sp.Matrix([u0s] * M)
-                defect = (G - dt * lam * Q) * y - rhs
-                ok = all(sp.simplify(sp.together(e)) == 0 for e in defect)
-                obs.append(_ob(f'{tag}:one_application_solves_(G-dt*lambda*Q)y=rhs_exactly', ok, dict(defect=str(defect)[:300]), backend='sympy'))
-                P = L.prob
-                okc = len(P.calls) == M and all(sp.simplify(c[1] - w[m] * dt) == 0 for m, c in enumerate(P.calls))
-                obs.append(_ob(f'{tag}:local_solves_use_factor_w_m*dt', okc, backend='sympy'))
-                if not ignore_ic and M > 1:
-                    # canary: the serial collocation equation (G = I) must NOT hold for a general G_inv
-                    wrong = (sp.eye(M) - dt * lam * Q) * y - rhs
-                    obs.append(_ob(f'{tag}:canary_general_G_is_not_identity', any(sp.simplify(sp.together(e)) != 0 for e in wrong), backend='sympy'))
+                for earlier in (False, True):
+                    L = Level(problem_class=SymDahlquist, problem_params={}, sweeper_class=QDiagonalization,
+                              sweeper_params=dict(num_nodes=M, quad_type='RADAU-RIGHT', ignore_ic=ignore_ic, update_f_evals=False), level_params=dict(dt=1.0), level_index=0)
+                    sw = L.sweep
+                    S = sp.Matrix(M, M, lambda i, j: sp.Symbol(f's{i}{j}'))
+                    w = [sp.Symbol(f'w{i}') for i in range(M)]
+                    Gi = sp.Matrix(M, M, lambda i, j: sp.Symbol(f'g{i}{j}') if (fullG or i == j) else 0)
+                    Sinv = S.inv()
+                    G = Gi.inv()
+                    Q = sp.simplify(S * sp.diag(*w) * Sinv * G)  # so that Q*G_inv = S diag(w) S^-1 : what computeDiagonalization assumes/delivers
+                    sw.S = np.array(S.tolist(), dtype=object)
+                    sw.S_inv = np.array(Sinv.tolist(), dtype=object)
+                    sw.w = np.array(w, dtype=object)
+                    sw.params.G_inv = np.array(Gi.tolist(), dtype=object)
+                    sw.coll.Qmat = np.array([[0] * (M + 1)] + [[0] + list(Q.row(i)) for i in range(M)], dtype=object)
+                    L.params.dt = dt
+                    L.status.time = sp.Symbol('t0')
+                    L.u[0] = u0s
+                    r = [sp.Symbol(f'r{m}') for m in range(M)]
+                    for m in range(M):
+                        L.residual[m] = r[m]
+                    L.status.unlocked = True
+                    tag = f'QDiagonalization.update_nodes[M={M},ignore_ic={ignore_ic},G_inv={"full" if fullG else "diagonal"}{",second_use_with_another_dt" if earlier else ""}]'
+                    if earlier:
+                        # history: the same sweeper solved before with ANOTHER step size, time and data (step size changed between runs / by adaptivity)
+                        L.params.dt, L.status.time, L.u[0] = sp.Symbol('dt_before'), sp.Symbol('t_before'), sp.Symbol('u0_before')
+                        for m in range(M):
+                            L.residual[m] = sp.Symbol(f'r_before{m}')
+                        try:
+                            sw.update_nodes()
+                        except Exception:
+                            pass
+                        L.params.dt, L.status.time, L.u[0] = dt, sp.Symbol('t0'), u0s
+                        for m in range(M):
+                            L.residual[m] = r[m]
+                        L.prob.calls.clear()
+                    try:
+                        sw.update_nodes()
+                    except Exception as e:
+                        obs.append(_ob(f'{tag}:runs', False, dict(error=repr(e)[:200]), backend='sympy'))
+                        continue
+                    y = sp.Matrix([L.increment[m] if ignore_ic else L.u[m + 1] for m in range(M)])
+                    rhs = sp.Matrix(r) if ignore_ic else sp.Matrix([u0s] * M)
+                    defect = (G - dt * lam * Q) * y - rhs
+                    ok = all(sp.simplify(sp.together(e)) == 0 for e in defect)
+                    obs.append(_ob(f'{tag}:one_application_solves_(G-dt*lambda*Q)y=rhs_exactly', ok, dict(defect=str(defect)[:300]), backend='sympy'))
+                    P = L.prob
+                    okc = len(P.calls) == M and all(sp.simplify(c[1] - w[m] * dt) == 0 for m, c in enumerate(P.calls))
+                    obs.append(_ob(f'{tag}:local_solves_use_factor_w_m*dt', okc, backend='sympy'))
+                    if not ignore_ic and M > 1:
+                        # canary: the serial collocation equation (G = I) must NOT hold for a general G_inv
+                        wrong = (sp.eye(M) - dt * lam * Q) * y - rhs
+                        obs.append(_ob(f'{tag}:canary_general_G_is_not_identity', any(sp.simplify(sp.together(e)) != 0 for e in wrong), backend='sympy'))
     return _pack('QDiagonalization.update_nodes/mat_vec', obs, 'one application solves the (alpha-weighted) linear collocation problem exactly: rational-function identity in S, w, G_inv, dt, lambda, data',
                  'M <= 2 (quick) / 3, diagonal and full G_inv, both input modes', label='proved per M (sympy normal form)')
 
